@@ -87,6 +87,56 @@ Fixpoint bind_scope (ps : list N) (ks : list kind) (sc : list N) (fl : list (N *
   | _, _ => (sc, fl)
   end.
 
+Fixpoint split_last {A} (l : list A) : option (list A * A) :=
+  match l with
+  | [] => None
+  | x :: t => match split_last t with
+              | Some (i, y) => Some (x :: i, y)
+              | None => Some ([], x)
+              end
+  end.
+
+(* function-valued expressions from which no break / continue / ret can come: names, lambdas, calls whose arguments
+   are such expressions or plain expressions without if-expressions *)
+Fixpoint noexit_fexpr (k : nat) (x : expr) {struct k} : bool :=
+  match k with
+  | O => false
+  | S k =>
+      match x with
+      | ERead _ _ | EFunction _ _ _ _ _ _ => true
+      | ECall (ERead _ _) args _ => forallb (fun a => noexit_expr k a || noexit_fexpr k a) args
+      | _ => false
+      end
+  end.
+
+(* the statements before the result of a function that returns a function: local functions and definitions of
+   values without if-expressions (no statement in them: nothing leaves the body before its last expression) *)
+Definition simple_init_stmt (k : nat) (s : stmt) : bool :=
+  match s with
+  | SDefinition _ _ _ _ (EFunction _ _ _ _ _ _) _ => true
+  | SDefinition _ _ _ _ v _ => noexit_expr k v
+  | _ => false
+  end.
+
+(* the body of a function whose result has the kind rk: any statement list if the result is plain; for a function
+   result the last statement is a function-valued expression of that kind, and nothing before it or in it can leave the
+   body early (so the value of the call is the value of that expression) *)
+Definition fbody_check (stmts : list stmt -> option (list N * list (N * kind)))
+           (fexpr : list (N * kind) -> list N -> expr -> option kind) (k : nat) (body : list stmt) (rk : kind) : bool :=
+  match rk with
+  | KP => match stmts body with Some _ => true | None => false end
+  | KF _ _ =>
+      match split_last body with
+      | Some (init, SStatementExpression e _) =>
+          forallb (simple_init_stmt k) init && noexit_fexpr k e &&
+          match stmts init with
+          | Some (sc1, fl1) => match fexpr fl1 sc1 e with Some K => kind_eqb K rk | None => false end
+          | None => false
+          end
+      | _ => false
+      end
+  end.
+
 Section Frag.
 Variable pv : N.      (* the id of the external `print` *)
 Variable sv : N.      (* the id of `start` *)
@@ -152,11 +202,29 @@ with frag_fexpr (fl : list (N * kind)) (k : nat) (sc : list N) (x : expr) {struc
   | S k =>
       match x with
       | ERead f _ => match fun_kind fl f with Some (KF a r) => Some (KF a r) | _ => None end
-      | EFunction _ params _ body _ _ =>
+      | EFunction _ params ret body _ _ =>
           let ps := param_ids params in
           let ks := param_kinds params in
-          if params_ok fl sc ps && is_some (frag_stmts (snd (bind_scope ps ks sc fl)) k (fst (bind_scope ps ks sc fl)) body)
-          then Some (KF ks KP) else None
+          let rk := kind_of_ty ret in
+          if params_ok fl sc ps
+             && fbody_check (frag_stmts (snd (bind_scope ps ks sc fl)) k (fst (bind_scope ps ks sc fl)))
+                            (fun fl1 sc1 e => frag_fexpr fl1 k sc1 e) k body rk
+          then Some (KF ks rk) else None
+      | ECall (ERead f _) args _ =>                                   (* a call that returns a function *)
+          if f =? pv then None else
+          match fun_kind fl f with
+          | Some (KF ks (KF a r)) =>
+              if (fix go (ks : list kind) (args : list expr) {struct ks} : bool :=
+                    match ks, args with
+                    | [], [] => true
+                    | KP :: ks', a :: args' => frag_expr fl k sc a && go ks' args'
+                    | K :: ks', a :: args' =>
+                        match frag_fexpr fl k sc a with Some K' => kind_eqb K' K | None => false end && go ks' args'
+                    | _, _ => false
+                    end) ks args
+              then Some (KF a r) else None
+          | _ => None
+          end
       | _ => None
       end
   end
@@ -212,12 +280,14 @@ with frag_stmts (fl : list (N * kind)) (k : nat) (sc : list N) (ss : list stmt) 
       | [] => Some (sc, fl)
       | s :: ss' =>
           match s with
-          | SDefinition _ fv _ _ (EFunction _ params _ body _ _) _ =>
+          | SDefinition _ fv _ _ (EFunction _ params ret body _ _) _ =>
               let ps := param_ids params in
               let ks := param_kinds params in
-              let fl' := (fv, KF ks KP) :: fl in
+              let rk := kind_of_ty ret in
+              let fl' := (fv, KF ks rk) :: fl in
               if fresh_id fl sc fv && params_ok fl' sc ps
-                 && is_some (frag_stmts (snd (bind_scope ps ks sc fl')) k (fst (bind_scope ps ks sc fl')) body)
+                 && fbody_check (frag_stmts (snd (bind_scope ps ks sc fl')) k (fst (bind_scope ps ks sc fl')))
+                                (fun fl1 sc1 e => frag_fexpr fl1 k sc1 e) k body rk
               then frag_stmts fl' k sc ss' else None
           | _ =>
               match frag_stmt fl k sc s with
@@ -256,15 +326,6 @@ Definition is_plain_def (s : stmt) : bool :=
 
 Definition is_def (s : stmt) : bool := match s with SDefinition _ _ _ _ _ _ => true | _ => false end.
 
-Fixpoint split_last {A} (l : list A) : option (list A * A) :=
-  match l with
-  | [] => None
-  | x :: t => match split_last t with
-              | Some (i, y) => Some (x :: i, y)
-              | None => Some ([], x)
-              end
-  end.
-
 (* the outer statements: global values and functions.
    scg = the global values so far, fl = the functions so far; a function sees the earlier globals and
    functions and itself (recursion) *)
@@ -274,12 +335,14 @@ Fixpoint frag_items (pv sv bound : N) (k : nat) (scg : list N) (fl : list (N * k
   | [] => Some (scg, fl)
   | s :: rest =>
       match s with
-      | SDefinition _ fv _ _ (EFunction _ params _ body _ _) _ =>
+      | SDefinition _ fv _ _ (EFunction _ params ret body _ _) _ =>
           let ps := param_ids params in
           let ks := param_kinds params in
-          let fl' := (fv, KF ks KP) :: fl in
+          let rk := kind_of_ty ret in
+          let fl' := (fv, KF ks rk) :: fl in
           if fresh_id pv sv bound fl scg fv && params_ok pv sv bound fl' scg ps
-             && is_some (frag_stmts pv sv bound (snd (bind_scope ps ks scg fl')) k (fst (bind_scope ps ks scg fl')) body)
+             && fbody_check (frag_stmts pv sv bound (snd (bind_scope ps ks scg fl')) k (fst (bind_scope ps ks scg fl')))
+                            (fun fl1 sc1 e => frag_fexpr pv sv bound fl1 k sc1 e) k body rk
           then frag_items pv sv bound k scg fl' rest else None
       | SDefinition _ _ _ _ _ _ =>
           match frag_stmt pv sv bound fl k scg s with
@@ -290,7 +353,14 @@ Fixpoint frag_items (pv sv bound : N) (k : nat) (scg : list N) (fl : list (N * k
       end
   end.
 
-(* STAGE 4f (4e + LAMBDA expressions as arguments; 4e = 4d-s + FUNCTIONS AS ARGUMENTS: the name of a function -- a
+(* STAGE 4g (4f + FUNCTIONS THAT RETURN FUNCTIONS: the declared result type of a function or lambda may be a function
+   type; then the last statement of its body is a function-valued expression of that kind -- a lambda (a NEW CLOSURE over
+   the parameters and locals of this call: every call returns its own closure with its own captured variables, which
+   it keeps after the call has ended and may assign), the name of a function, or a call that returns a function -- and
+   the statements before it are local functions and definitions whose values contain no if-expression (fbody_check:
+   nothing leaves such a body before its last expression).  A call that returns a function is a function-valued
+   expression: it can be passed to a parameter of that function kind, or be the result of a function;
+   4f = 4e + LAMBDA expressions as arguments; 4e = 4d-s + FUNCTIONS AS ARGUMENTS: the name of a function -- a
    top-level function, a local closure, a function parameter -- passed to a parameter of function type, which the callee
    calls or passes on; kinds, below);
    4d-s = 4c' + STRING values: literals, + as concatenation, == != < <= > >=, <=>, print;
@@ -324,15 +394,17 @@ Fixpoint frag_items (pv sv bound : N) (k : nat) (scg : list N) (fl : list (N * k
    the six comparisons (on two ints or on two strings: byte-wise lexicographic order),
    <=> (assert-equal), and/or/not, unary minus, calls print(e), calls f(a1, ..., an) of functions by
    name (top-level, local, or a function parameter; an argument ai is a plain expression or, for a parameter of
-   function kind, the name of a function of that kind or a lambda expression  fn p1: T1, ... -> T do ... end  whose
-   body is a function body of the fragment over what is in scope there), and if/elif/else expressions and statements whose branches are statement lists.
-   KINDS.  Every value is plain (int, bool, string, nil) or a function; the kind of a parameter is read off its
-   declared type (`fn T1, ..., Tn -> T` is a function kind, everything else plain).  Function values exist only as the
-   values of function names (definitions `f :: fn ...` and parameters of function kind) and of lambda expressions in
-   argument position; a function name can be called and passed to a parameter of the same function kind, nothing else: so print, the operators, the conditions and the
-   assignments only ever see plain values, and the result of every call is plain.
-   NOT in the fragment: `ret` without a value (it returns Sylt's nil, the table __NIL), functions
-   that return functions or store them in variables, blobs, tuples, lists, enums/case, floats, division. *)
+   function kind, the name of a function of that kind, a lambda expression  fn p1: T1, ... -> T do ... end  whose
+   body is a function body of the fragment over what is in scope there, or a call that returns a function of that kind), and if/elif/else expressions and statements whose branches are statement lists.
+   KINDS.  Every value is plain (int, bool, string, nil) or a function; the kind of a parameter and of the result of a
+   function is read off its declared type (`fn T1, ..., Tn -> T` is a function kind, everything else plain).  Function
+   values exist only as the values of function names (definitions `f :: fn ...` and parameters of function kind), of
+   lambda expressions and of calls of functions whose result kind is a function kind, in argument position or as the
+   result of a function; a function name can be called and passed to a parameter of the same function kind, nothing
+   else: so print, the operators, the conditions and the assignments only ever see plain values.
+   NOT in the fragment: `ret` without a value (it returns Sylt's nil, the table __NIL), function values stored in
+   variables (`c :: mk(1)`; a parameter of function kind is the way to name one) or called where they are computed
+   (`mk(1)(2)`), `ret` of a function value, blobs, tuples, lists, enums/case, floats, division. *)
 Definition frag (k : nat) (r : resolved) : bool :=
   let bound := N.of_nat (length (r_vars r)) + 1 in
   match r_stmts r with
